@@ -104,6 +104,7 @@ def entry_points(pgn, payload, fast, prio=3, src=7, dst=255, seq=5):
     if fast or len(payload) <= 8:
         out["ebyte"] = framewise(lambda d, fr: d.decode_tcp(ebyte_packet(ident, fr)))
         out["usb"] = framewise(lambda d, fr: d.decode_usb(usb_packet(ident, fr)))
+        out["usb_bytearray"] = framewise(lambda d, fr: d.decode_usb(bytearray(usb_packet(ident, fr))))    # what the serial client hands over (a slice of its buffer)
         out["yd"] = framewise(lambda d, fr: d.decode_yacht_devices_string(yd_line(ident, fr)))
         out["plain_frames"] = framewise(lambda d, fr: d.decode_basic_string(plain_line(prio, pgn, src, dst, fr)))
     return out
